@@ -13,9 +13,9 @@ import (
 func init() {
 	Register(&PropDef{
 		ID: "C12", QuickRuns: 6400, Level: "fault_enumeration",
-		Rule: "one run draws max_req_retries N (1,2,3,5), resp_timeout, heartbeat interval and feature flags, then runs one sub-scenario: (hb) for EVERY k in 1..N+1 a heartbeat cycle in which the peer answers exactly the k-th transmission, then a cycle with late / duplicated / wrong-sequence answers, then a cycle answered never: transmissions are counted and their spacing measured on the virtual clock at the peer; (peer-hb) heartbeats from the peer before and after association, Recovery Time Stamp stability and postponement of the agent's own heartbeat; (gate) Association Setup attempts with the datapath flapping between READY and not READY and feature bits vs configuration; (initiated) agent-initiated association towards a configured peer answering the k-th transmission or never. Non-trivial = at least one association and one dropped answer; distinct = different (sub-scenario, N, timeout, interval, k pattern, outcome). Also: peer port closed (ICMP) exactly at the first transmission of a heartbeat.",
+		Rule:   "one run draws max_req_retries N (1,2,3,5), resp_timeout, heartbeat interval and feature flags, then runs one sub-scenario: (hb) for EVERY k in 1..N+1 a heartbeat cycle in which the peer answers exactly the k-th transmission, then a cycle with late / duplicated / wrong-sequence answers, then a cycle answered never: transmissions are counted and their spacing measured on the virtual clock at the peer; (peer-hb) heartbeats from the peer before and after association, Recovery Time Stamp stability and postponement of the agent's own heartbeat; (gate) Association Setup attempts with the datapath flapping between READY and not READY and feature bits vs configuration; (initiated) agent-initiated association towards a configured peer answering the k-th transmission or never. Non-trivial = at least one association and one dropped answer; distinct = different (sub-scenario, N, timeout, interval, k pattern, outcome). Also: peer port closed (ICMP) exactly at the first transmission of a heartbeat.",
 		Assume: []string{"network latency is constant in this check (200 us each way) so that spacing can be judged to 2 ms", "'declared dead' is observed as delete commands at the simulated BESS and a fresh Association Setup being served"},
-		Real: CommonReal, Simulated: CommonSim,
+		Real:   CommonReal, Simulated: CommonSim,
 		Scenario: scenarioC12,
 	})
 }
